@@ -1559,7 +1559,7 @@ def constrain_sum_bounded(x: np.array, s: float, lb: np.array, ub: np.array) -> 
             return (x - x0_scaled) / dist
 
     LinearConstraint = [{"type": "eq", "fun": lambda x: np.sum(x) - 1, "jac": lambda x: np.ones(x.shape)}]
-    res = scipy.optimize.minimize(lambda x: np.linalg.norm(x - x0_scaled), x0_scaled, jac=jacfcn, bounds=bounds, constraints=LinearConstraint, method="SLSQP", options={"ftol": 1e-5, "maxiter": 1000})
+    res = scipy.optimize.minimize(lambda x: np.linalg.norm(x - x0_scaled), x0_scaled, jac=jacfcn, bounds=bounds, constraints=LinearConstraint, method="SLSQP", options={"ftol": 1e-12, "maxiter": 1000})  # nb. the tolerance needs to be much tighter than `tolerance`, otherwise the sum is only met to about 1e-5
 
     if not res["success"]:
         logger.warning("constrain_sum_bounded() failed - rejecting proposed parameters")
@@ -1567,5 +1567,7 @@ def constrain_sum_bounded(x: np.array, s: float, lb: np.array, ub: np.array) -> 
 
     # Enforce upper/lower bound constraints to prevent numerically exceeding them
     sol = np.minimum(np.maximum(res["x"], lb_scaled), ub_scaled) * s
-    assert np.isclose(sol.sum(), s), f"FAILED as {sol} has a total of {sol.sum()} which is not sufficiently close to the target value {s}"
+    if not np.isclose(sol.sum(), s, rtol=tolerance, atol=0):
+        logger.warning("constrain_sum_bounded() did not meet the required total - rejecting proposed parameters")
+        raise FailedConstraint()
     return sol
